@@ -160,6 +160,34 @@ class _FailOracle:
 
 
 class FailAsync(_FailOracle, c04.RefChain):
+    def make_sink_fn(self, kind, name):
+        inner = super().make_sink_fn(kind, name)
+        pre = self.params.get("prefail")
+        if not pre:
+            return inner
+        scen = self
+
+        def f(x):
+            if x == pre[0]:
+                # a consumer whose awaitable has already failed when update() returns
+                # (a gen.coroutine that raises before its first yield / a pre-failed future)
+                exc = Injected("prefailed:%r" % (x,))
+                scen.log.append(("in", name, scen.loop.time(), x))
+                scen.log.append(("gate-failed", "%s:%r" % (name, x), scen.loop.time(), x))
+                if pre[1] == "gen":
+                    from tornado import gen
+
+                    @gen.coroutine
+                    def g():
+                        raise exc
+                        yield
+                    return g()
+                fut = scen.loop.create_future()
+                fut.set_exception(exc)
+                return fut
+            return inner(x)
+        return f
+
     def check_step(self):
         return self.fail_check(False)
 
@@ -208,9 +236,10 @@ class FailThreaded(_FailOracle, ThreadedMixin, c04.RefChain):
 
 
 def factory(key):
-    mode, node, kind, n = key
-    cls = FailAsync if mode == "async" else FailThreaded
-    return lambda: cls(prop="C04", nodes=(node,), kind=kind, mode="await", n=n, fail=1)
+    mode, node, kind, n = key[:4]
+    cls = FailAsync if mode.startswith("async") else FailThreaded
+    prefail = (2, key[4]) if len(key) > 4 else None
+    return lambda: cls(prop="C04", nodes=(node,), kind=kind, mode="await", n=n, fail=0 if prefail else 1, prefail=prefail)
 
 
 def sched_plan(ctx):
@@ -220,6 +249,9 @@ def sched_plan(ctx):
         for kind in ("future", "native", "gen") if (T or node in ("direct", "map")) else ("future",):
             jobs.append((("async", node, kind, 3 if T else 2), 1))
             jobs.append((("threaded", node, kind, 2), 1 if node != "buffer:1" else 0))
+    for node in ("direct", "map"):
+        for how in ("future", "gen"):
+            jobs.append((("async-prefail", node, "future", 3, how), 1))
     return jobs
 
 
